@@ -1,0 +1,9 @@
+//go:build verif
+
+// Contracts for govc (/verif): C05, assumed contract of base58.Encode as used by common.Address.String. Comment-only file.
+
+package base58
+
+//@ -- Encode: radix conversion with big.Int on a local copy; total, no effect on existing memory (its functional correctness is C32's subject).
+//@ assume func Encode(b)
+//@   modifies nothing
